@@ -218,6 +218,10 @@ func checkTree(c *pbt.Ctx, cs TreeCase) {
 	}
 	load(cs.V, cs.O.Recurse)
 
+	// copies taken before the edits are independent of the tree (CopyTo into a fresh node, Fork)
+	var cp generic.PathNode
+	tree.CopyTo(&cp)
+	fk := tree.Fork()
 	model := cs.V.Clone()
 	gone := goneSet{}
 	sets, clears, deep, onLoaded := 0, 0, 0, 0
@@ -328,6 +332,23 @@ func checkTree(c *pbt.Ctx, cs TreeCase) {
 	if d := tm.Diff(tm.Canon(got), tm.Canon(expected)); d != "" {
 		c.Failf("marshal-different-value", "Marshal after edits: %s\n got  %s\n want %s", d, got.Short(), expected.Short())
 	}
+	for _, x := range []struct {
+		n string
+		t *generic.PathNode
+	}{{"CopyTo", &cp}, {"Fork", &fk}} {
+		c.Step("Marshal of the %s copy taken before the edits", x.n)
+		cout, cerr := x.t.Marshal(o)
+		if cerr != nil {
+			c.Failf("copy-marshal-error", "Marshal of the %s copy: %v", x.n, cerr)
+		}
+		cgot, cderr := tm.DecodeStrict(cs.V.K, cout)
+		if cderr != nil {
+			c.Failf("copy-changed", "the %s copy taken before the edits no longer marshals to a well-formed value: %v", x.n, cderr)
+		}
+		if d := tm.Diff(tm.Canon(cgot), tm.Canon(cs.V)); d != "" {
+			c.Failf("copy-changed", "the %s copy taken before the edits changed with the tree: %s", x.n, d)
+		}
+	}
 	// the bytes returned by Marshal stay what they are while another tree is marshalled
 	keep := append([]byte(nil), out...)
 	otherV := cs.V.Clone()
@@ -367,7 +388,7 @@ var treeCfg = tm.GenCfg{MaxDepth: 3, BigSizes: true, BigIDs: true, WireOrder: tr
 
 var TreeProp = pbt.Register(pbt.Prop[TreeCase]{
 	Name: "TestDomTree",
-	Rule: "generated value of any shape (every container and key kind) loaded recursively or lazily (optionally into a tree that held another value loaded in the other mode) under StoreChildrenById/StoreChildrenByHash/NotScanParentNode, then 1..10 edits at any depth: a child replaced through SetField/SetByStr/SetByInt or by assigning the child PathNode (list/set elements and bool/double/struct-keyed entries have no setter), cleared (empty Node) or reset (ResetValue), new fields/keys added, inner children expanded lazily on the way down; after every edit the lookup returns the child just stored; the final Marshal must decode to the model value without the cleared children and its bytes must stay intact while another tree is marshalled; non-trivial = a set, a clear and an edit below depth 1",
+	Rule: "generated value of any shape (every container and key kind) loaded recursively or lazily (optionally into a tree that held another value loaded in the other mode) under StoreChildrenById/StoreChildrenByHash/NotScanParentNode, then 1..10 edits at any depth: a child replaced through SetField/SetByStr/SetByInt or by assigning the child PathNode (list/set elements and bool/double/struct-keyed entries have no setter), cleared (empty Node) or reset (ResetValue), new fields/keys added, inner children expanded lazily on the way down; after every edit the lookup returns the child just stored; copies taken before the edits (CopyTo, Fork) must still marshal to the original value; the final Marshal must decode to the model value without the cleared children and its bytes must stay intact while another tree is marshalled; non-trivial = a set, a clear and an edit below depth 1",
 	Gen: func(t *rapid.T) TreeCase {
 		u := tm.GenUniverse(t, treeCfg)
 		if !isComplex(u.Root.K) {
